@@ -282,6 +282,9 @@ def stage_lib(ctx, inputs, libdir, threads, reps):
     return res, None
 
 
+STALE = b"// stale content of an earlier run\n" * 40000      # 1.4 MB: longer than any output generated here
+
+
 def cli_once(inp, outpath, cwd):
     cmd = [CLI, "-m", inp["cli_path"], "-d", "Dev"]
     if outpath:
@@ -289,6 +292,9 @@ def cli_once(inp, outpath, cwd):
             os.remove(outpath)
         except OSError:
             pass
+        if outpath.endswith(".pre.rs"):       # -o onto an EXISTING, longer file
+            with open(outpath, "wb") as f:
+                f.write(STALE)
         cmd += ["-o", outpath]
     e = dict(os.environ)
     e["RUST_BACKTRACE"] = "0"
@@ -315,16 +321,22 @@ def stage_cli(ctx, inputs, outdir, K, K_many):
             tasks.append((i, os.path.join(outdir, "no_such_dir_" + i["id"], "x.rs")))
         else:
             tasks.append((i, os.path.join(outdir, i["id"] + ".rs")))
+            tasks.append((i, os.path.join(outdir, i["id"] + ".pre.rs")))
     for i in inputs:
         i["runs"] = []
         i["file_run"] = None
+        i["pre_run"] = None
 
     def one(t):
         i, outpath = t
         return t, cli_once(i, outpath, i["cwd"])
     with concurrent.futures.ThreadPoolExecutor(max_workers=vlib.NCPU) as ex:
         for (i, outpath), r in ex.map(one, tasks):
-            if outpath:
+            if outpath and outpath.endswith(".pre.rs"):
+                intact = r[2] == STALE
+                i["pre_run"] = {"rc": r[0], "file": None if intact else r[2], "intact": intact, "outpath": outpath}
+                os.remove(outpath)
+            elif outpath:
                 i["file_run"] = {"rc": r[0], "stdout": r[1], "file": r[2], "stderr": r[3], "outpath": outpath}
             else:
                 i["runs"].append({"rc": r[0], "stdout": r[1], "stderr": r[3]})
@@ -516,6 +528,17 @@ def compare(ctx, inputs, lib, models, d13_open, stats):
                 bad.append("-o file differs from stdout")
         elif fr["file"] is not None:
             bad.append("-o run: model writes nothing, but the file exists with " + short(fr["file"], 120))
+        # ---- -o onto an existing longer file: afterwards it holds exactly what a fresh file holds (the output replaces the
+        # old content), or, when the model writes nothing, it is untouched
+        pr = i.get("pre_run")
+        if pr is not None:
+            if pr["rc"] != fr["rc"]:
+                bad.append(f"-o onto an existing file: exit status {pr['rc']}, onto a fresh path {fr['rc']}")
+            elif mf["writes"] and pr["file"] != fr["file"]:
+                bad.append("-o onto an existing longer file: the file does not hold exactly the output (%d bytes, fresh file %d bytes; stale tail kept: %s)"
+                           % (len(pr["file"] or b""), len(fr["file"] or b""), (pr["file"] or b"").endswith(STALE[-40:])))
+            elif not mf["writes"] and not pr["intact"]:
+                bad.append("-o onto an existing file: model writes nothing, but the existing file was modified (%d bytes left)" % len(pr["file"] or b""))
         # ---- property text directly: non-zero exactly when the library reports an error (environment permitting)
         if l and l["status"] == "out":
             txt = l["texts"][0].decode(errors="replace")
